@@ -46,8 +46,11 @@ def run_case(desc):
 
         return c08_file.run_case(desc)
     problems, stats, S, log = history.run_history(desc, props=())
+    prefix_cut = 0
     if problems:
-        return {"status": "ok", "counters": {"prefix_histories_cut_short": 1}, "nontrivial": False}
+        # the history that was to produce the starting state already went wrong (another property's business): start from empty stores instead
+        problems, stats, S, log = history.run_history(dict(desc, steps=0), props=())
+        prefix_cut = 1
     rng = random.Random(desc["seed"] ^ 0xC08)
     H = S.H
     for _ in range(rng.randint(1, 3)):
